@@ -709,6 +709,35 @@ type v2Job struct {
 	hist []v2Block
 }
 
+// v2LongHists: two fixed 13-version normal-form histories over {a,b,c} (every version changes the contents; the
+// second one shrinks the tree to one key and to empty on the way).
+func v2LongHists() [][]v2Block {
+	keys := []string{"a", "b", "c"}
+	var h1, h2 []v2Block
+	for i := 0; i < 13; i++ {
+		h1 = append(h1, v2Block{{K: keys[i%3]}})
+		switch i % 6 {
+		case 0:
+			h2 = append(h2, v2Block{{K: "a"}, {K: "b"}})
+		case 1:
+			h2 = append(h2, v2Block{{Del: true, K: "b"}})
+		case 2:
+			h2 = append(h2, v2Block{{Del: true, K: "a"}})
+		case 3:
+			h2 = append(h2, v2Block{{K: "c"}})
+		case 4:
+			h2 = append(h2, v2Block{{K: "a"}, {Del: true, K: "c"}})
+		default:
+			h2 = append(h2, v2Block{})
+		}
+	}
+	return [][]v2Block{h1, h2}
+}
+
+func v2LongCfgs() []v2Cfg {
+	return []v2Cfg{{1, 1, -1, true}, {3, 1, -1, true}, {3, 0, 0, false}, {2, 1, 1, true}, {4, 1, -1, false}}
+}
+
 func enumHists(blocks []v2Block, n int) [][]v2Block {
 	var out [][]v2Block
 	var rec func(cur []v2Block)
@@ -821,6 +850,12 @@ func init() {
 		n := 3
 		blocks := v2Blocks(keys, 2)
 		var jobs []v2Job
+		// long version chains (two-digit version numbers, several checkpoints / shard tables)
+		for _, h := range v2LongHists() {
+			for _, cfg := range v2LongCfgs() {
+				jobs = append(jobs, v2Job{cfg, h})
+			}
+		}
 		// history-major order: if the budget ends early, every configuration has covered the same histories
 		for _, h := range enumHists(blocks, n) {
 			for _, cfg := range v2Configs(c.Tier, false) {
@@ -853,6 +888,11 @@ func init() {
 			n = 4
 		}
 		small := v2Blocks(keys, 1)
+		for _, h := range v2LongHists() {
+			for _, cfg := range v2LongCfgs() {
+				jobs = append(jobs, v2Job{cfg, h})
+			}
+		}
 		for _, h := range enumHists(blocks, n-1) {
 			last := blocks
 			if c.Tier == "quick" {
